@@ -19,7 +19,7 @@ LEVEL = "exploration"
 RULE = (
     "decision function: every string dddd-dd-dd with year 1990..2199, month 00..99, day 00..99 (2.1M, exhaustive; thorough: the complete 10^8 domain years 0000..9999) "
     "plus None/'' : supports_batching(v) == (v < '2025-06-18') == (ProtocolVersion.compare(v,'2025-06-18') < 0); "
-    "transport: operation sequences over an entered StdioClient with a scripted child: set_protocol_version(v in none / supported / cutoff neighbours), tracked initialize handshake (preferred x answered version, all 81 pairs enumerated), "
+    "transport: operation sequences over an entered StdioClient with a scripted child: set_protocol_version(v in none / supported / cutoff neighbours), tracked initialize handshake (preferred x answered version, all 81 pairs enumerated), a version switch k scheduler turns after a batch line arrived, "
     "single message line, batch line of 0..4 members mixing valid and invalid items, stall window (the child stops reading its stdin while k in 0..130 outgoing messages pile up and 1..3 lines arrive, then reads again); after every line the delivered messages and the bytes written back are compared "
     "with the reference for the current mode; non-trivial (decision) = version within 45 days of the cutoff or differing from it in exactly one field; "
     "(transport) = a batch after a mode change or a batch mixing valid and invalid members; distinct = distinct string / distinct sequence"
@@ -149,7 +149,7 @@ def check(case: Dict[str, Any]) -> Outcome:
 
     out = Outcome()
     ops: List[List[Any]] = case["ops"]
-    flags = {"batch_after_mode_change": False, "mixed_batch": False, "stalled_window": False, "rejection_behind_full_queue": False, "version_by_handshake": False, "handshake_across_cutoff": False}
+    flags = {"batch_after_mode_change": False, "mixed_batch": False, "stalled_window": False, "rejection_behind_full_queue": False, "version_by_handshake": False, "handshake_across_cutoff": False, "version_switch_racing_a_batch": False}
 
     async def main() -> None:
         procs: List[FakeProcess] = []
@@ -210,6 +210,41 @@ def check(case: Dict[str, Any]) -> Outcome:
                         if mode != last_mode:
                             mode_changed_since_batch = True
                         last_mode = mode
+                        continue
+                    if op[0] == "batch_then_version":
+                        # a batch line arrives and the application switches the version k scheduler turns later (e.g. a
+                        # re-negotiation racing with the server's output): the batch must be handled entirely under one of
+                        # the two modes - all valid members delivered and nothing written back, or nothing delivered and
+                        # exactly one -32600 - never half of each
+                        members = [_member(x) for x in op[1]]
+                        v_new = [v_ for v_ in VERSIONS if v_ is not None][op[2] % (len(VERSIONS) - 1)]
+                        n_written = len(proc.stdin.writes)
+                        proc.stdout.feed((json.dumps(members) + "\n").encode())
+                        for _y in range(op[3]):
+                            await asyncio.sleep(0)
+                        client.set_protocol_version(v_new)
+                        old_accepting = version is None or version < CUTOFF
+                        version = v_new
+                        mode = v_new < CUTOFF
+                        if mode != last_mode:
+                            mode_changed_since_batch = False
+                        last_mode = mode
+                        await asyncio.sleep(0.01)
+                        got = []
+                        while True:
+                            try:
+                                got.append(read.receive_nowait())
+                            except (anyio.WouldBlock, anyio.EndOfStream):
+                                break
+                        got_wire = [g.model_dump(exclude_none=True) if hasattr(g, "model_dump") else g for g in got]
+                        written = proc.stdin.writes[n_written:]
+                        want = [m for m in members if classify(m)[0] is not None]
+                        as_accepted = (len(got_wire) == len(want) and not any(first_diff(a, b) for a, b in zip(got_wire, want)) and not written)
+                        as_rejected = (not got_wire and len(written) == 1)
+                        flags["version_switch_racing_a_batch"] = True
+                        if not (as_accepted or as_rejected) or (old_accepting == mode and not (as_accepted if mode else as_rejected)):
+                            out.fail("batch-neither-accepted-nor-rejected-when-the-version-changes-meanwhile", f"step {step}: batch of {len(members)} fed, version -> {v_new!r} {op[3]} turns later: delivered {len(got_wire)}/{len(want)}, {len(written)} line(s) written back")
+                            return
                         continue
                     accepting = version is None or version < CUTOFF
                     if op[0] == "stalled":
@@ -369,11 +404,12 @@ _sub = st.one_of(st.tuples(st.just("single"), st.integers(0, 4)).map(list), st.t
 _stalled = st.tuples(st.just("stalled"), st.sampled_from([0, 1, 5, 99, 100, 101, 102, 130]), st.lists(_sub, min_size=1, max_size=3)).map(list)
 
 
+_btv = st.tuples(st.just("batch_then_version"), st.lists(_member_spec, max_size=3), st.integers(0, 8), st.sampled_from([0, 0, 1, 2, 3, 5])).map(list)
 _handshake = st.tuples(st.just("handshake"), st.integers(0, 8), st.integers(0, 8)).map(list)
 
 
 def cases():
-    return st.lists(st.one_of(_op, _op, _op, _op, _stalled, _handshake), min_size=1, max_size=30).map(lambda ops: {"ops": ops})
+    return st.lists(st.one_of(_op, _op, _op, _op, _stalled, _handshake, _btv), min_size=1, max_size=30).map(lambda ops: {"ops": ops})
 
 
 def job_hyp(col: Collector, seed: int, tier: str, shard: int, n: int) -> None:
@@ -388,6 +424,13 @@ def job_matrix(col: Collector, seed: int, tier: str) -> None:
         for sh in shapes:
             case = {"ops": [["version", vi], ["batch", sh], ["single", 1], ["version", (vi + 1) % len(VERSIONS)], ["batch", sh]]}
             col.record(case, check(case))
+    # a batch racing with a version switch: every version before x every version after x 6 offsets
+    nv2 = len([v for v in VERSIONS if v is not None])
+    for vi in range(len(VERSIONS)):
+        for vj in range(nv2):
+            for k in (0, 1, 2, 3, 5, 8):
+                case = {"ops": [["version", vi], ["batch_then_version", [["v", 0], ["i", 0], ["v", 2]], vj, k], ["single", 1], ["batch", [["v", 1]]]]}
+                col.record(case, check(case))
     # the version set through a tracked handshake: every (preferred, answered) pair of the 9 versions, then a batch
     nv = len([v for v in VERSIONS if v is not None])
     for pi in range(nv):
